@@ -641,7 +641,7 @@ def orbacc_cases(tier, rng):
     out = []
 
     def add(name, A, E):
-        out.append(dict(kind="orbacc", name="orbacc/" + name, A=A, E=E))
+        out.append(dict(kind="orbacc", name="orbacc/" + name, A=A, E=E, frozen=bool(len(out) % 2)))
     add("empty", [], [])
     add("one-node", [[3]], [[3]])
     add("different-node-sets", [[1, 2]], [[1], [3]])
